@@ -46,14 +46,16 @@ REQUIRED_BRANCHES = ['mode_interp', 'mode_largest', 'mode_largest+smallest', 'mo
                      'repeated_filter_aperture', 'distinct_filter_apertures', 'two_sources', 'ext_unit_micron', 'ext_unit_other',
                      'ext_unit_other_file_av_nonzero', 'cube_names_unsorted', 'aperture_list_of_one', 'two_apertures',
                      'selector_N', 'selector_other', 'plot_max', 'plot_mode_I', 'sources_subset', 'form_fitfile',
-                     'filter_units_other', 'av_range_not_from_zero', 'several_laws_same_package', 'later_law_av_nonzero', 'flux_unit_mJy', 'flux_unit_other', 'best_fit_tied', 'aperture_table_in_AU', 'aperture_table_other_unit_cube', 'aperture_table_other_unit_per_file',
+                     'filter_units_other', 'av_range_not_from_zero', 'several_laws_same_package', 'later_law_av_nonzero', 'flux_unit_mJy', 'flux_unit_other', 'best_fit_tied', 'aperture_equal_smallest', 'ext_route_deepcopy', 'ext_route_pickle', 'ext_route_table', 'plot_opts_positional',
+                     'plot_opts_memmap_off', 'plot_opts_show_convolved', 'aperture_table_in_AU', 'aperture_table_other_unit_cube', 'aperture_table_other_unit_per_file',
                      'per_file_package', 'seds_in_subdirs', 'seds_flat',
                      'subdir_shared_by_models', 'name_shorter_than_subdir', 'name_as_long_as_subdir', 'stored_increasing_wav', 'stored_decreasing_wav']
 ASSUMPTIONS = ['IEEE rounding is not modelled: model-vs-implementation tolerance 1e-9 relative on curve values',
                'pass-through against the stored predicted flux is checked to 2e-3 relative (the plot uses KPC = 3.086e21 cm, '
                'the package distance is astropy\'s kpc = 3.0857e21 cm: ratio^2 = 1 - 2.1e-4)',
-               'theta*dmin is kept >= 1.001 x the smallest tabulated aperture (the raise-below decision is discrete; '
-               'the property\'s domain is "never below the table")',
+               'theta*dmin is kept >= 1.001 x the smallest tabulated aperture (the raise-below decision is discrete; the property\'s '
+               'domain is "never below the table"), except for the exactly representable boundary theta x 1 kpc x 1000 == smallest '
+               'aperture at a fixed distance of 1 kpc, which is generated and must be drawn',
                'matplotlib is only a container: LineCollection.get_segments() returns the arrays that were appended',
                'plot_mode=\'I\' with output_dir=None: plot() builds one collection per fit and the returned dictionary keeps only '
                'the last one built (the best fit); the count is then 1 fit x apertures shown, and pass-through is checked for fit 0',
@@ -149,6 +151,19 @@ def gen_case(rng, directed=None):
     else:
         dmin, dmax = 1., float(rng.choice([2, 5, 10]))
         step = 0.05
+    # boundary: the smallest filter aperture at a fixed distance of exactly 1 kpc EQUALS the smallest tabulated aperture
+    # (theta in half arcseconds: theta * 1 * 1000 is exact, log10(1) = 0 and 10**0 = 1 exactly)
+    on_knot = bool(multi and directed.get('on_knot', rng.random() < 0.12))
+    if on_knot:
+        base_t = [0.5 * rng.randint(1, 40) for _ in range(nf)]
+        theta = [base_t[0] if (repeat and j == 1) else base_t[j] for j in range(nf)]
+        dmin = dmax = 1.
+        step = 0.05
+        a0 = min(theta) * 1000.
+        grow = sorted(nice(rng, 1.5, 60., 2) for _ in range(nap - 1))
+        aps = [a0] + [float('%.4g' % (a0 * g)) for g in grow]
+        if len(set(aps)) < nap:
+            aps = [a0 * (1. + j) for j in range(nap)]
     # unit in which the cube stores its flux densities (`val` holds the numbers in that unit)
     flux_unit = directed.get('flux_unit', rng.choice(['mJy', 'mJy', 'Jy', 'uJy']))
     to_mjy = FLUX_TO_MJY[flux_unit]
@@ -209,15 +224,20 @@ def gen_case(rng, directed=None):
     # units in which the filter wavelengths and the angular apertures are handed to the Fitter
     wav_unit = directed.get('wav_unit', rng.choice(['micron', 'micron', 'nm', 'Angstrom', 'cm', 'm']))
     ap_unit = directed.get('ap_unit', rng.choice(['arcsec', 'arcsec', 'arcmin', 'deg', 'rad']))
+    if on_knot:
+        ap_unit = 'arcsec'                     # a unit round trip would move the aperture off the knot
     return dict(wav=wav, aps=aps, val=val, fidx=fidx, theta=theta, tab_w=tw, tab_chi=chi, av=av_range,
                 drange=[dmin, dmax], step=step, sources=sources, k=k, forms=forms, names=names, ext_unit=ext_unit,
                 select=select, plot_max=plot_max, plot_mode=plot_mode, subset=subset, wav_unit=wav_unit, ap_unit=ap_unit,
                 laws=laws, flux_unit=flux_unit, dup=dup, pkg=pkg, subdir=subdir,
-                ap_table_unit=(directed.get('ap_table_unit', rng.choice(['AU', 'AU', 'pc', 'cm'])) if aps else 'AU'))
+                ap_table_unit=('AU' if (on_knot or not aps) else directed.get('ap_table_unit', rng.choice(['AU', 'AU', 'pc', 'cm']))),
+                on_knot=on_knot,
+                ext_route=directed.get('ext_route', rng.choice(['direct', 'direct', 'deepcopy', 'pickle', 'table'])),
+                plot_opts=directed.get('plot_opts', rng.choice(['keywords', 'keywords', 'positional', 'memmap_off', 'show_convolved'])))
 
 
 FLUX_TO_MJY = {'mJy': 1., 'Jy': 1000., 'uJy': 1e-3}
-PLAIN = dict(pkg='cube', ap_table_unit='AU', n_laws=1, flux_unit='mJy', dup=False, select='N', plot_max=None, plot_mode='A', subset=None, wav_unit='micron', ap_unit='arcsec', av_lo=0.)
+PLAIN = dict(on_knot=False, ext_route='direct', plot_opts='keywords', pkg='cube', ap_table_unit='AU', n_laws=1, flux_unit='mJy', dup=False, select='N', plot_max=None, plot_mode='A', subset=None, wav_unit='micron', ap_unit='arcsec', av_lo=0.)
 DIRECTED = [
     dict(PLAIN, multi=False, napkind='none', k=1, forms=['object', 'file'], nsrc=1, stored='inc', repeat=False, ext_unit='micron'),
     dict(PLAIN, multi=True, napkind='many', k=1, forms=['object', 'file'], nsrc=1, where='inside', stored='dec', repeat=False, ext_unit='micron'),
@@ -256,6 +276,10 @@ DIRECTED = [
     dict(PLAIN, ap_table_unit='pc', pkg='per_file', subdir=1, multi=True, napkind='many', k=3, forms=['object', 'fitfile'], nsrc=1, where='inside'),
     dict(PLAIN, ap_table_unit='cm', pkg='per_file', subdir=0, multi=True, napkind='many', k=4, forms=['file'], nsrc=1, where='above'),
     dict(PLAIN, ap_table_unit='pc', multi=False, napkind='one', k=2, forms=['object'], nsrc=1),
+    dict(PLAIN, on_knot=True, multi=True, napkind='many', k=2, forms=['object', 'file'], nsrc=1, repeat=False, ext_route='deepcopy'),
+    dict(PLAIN, on_knot=True, multi=True, napkind='two', k=3, forms=['fitfile'], nsrc=2, repeat=True, plot_opts='positional', ext_route='pickle'),
+    dict(PLAIN, on_knot=True, pkg='per_file', subdir=1, multi=True, napkind='many', k=1, forms=['object'], nsrc=1, plot_opts='memmap_off', ext_route='table'),
+    dict(PLAIN, multi=True, napkind='many', k=3, forms=['file'], nsrc=1, where='inside', plot_opts='show_convolved'),
 ]
 
 
@@ -339,6 +363,20 @@ def write_package_ap_unit(case, d, names, val, funit, tab_unit):
     pk.write_parameters(d, list(names), {'PAR1': [float(i) for i in range(len(names))]})
 
 
+def route_object(ext, route):
+    """the same extinction law reached through another plain-Python route before use"""
+    import copy
+    import pickle
+    if route == 'deepcopy':
+        return copy.deepcopy(ext)
+    if route == 'pickle':
+        return pickle.loads(pickle.dumps(ext, 2))
+    if route == 'table':
+        from sedfitter.extinction import Extinction
+        return Extinction.from_table(ext.to_table())
+    return ext
+
+
 class BuildError(Exception):
     pass
 
@@ -365,7 +403,7 @@ def build(case, d, li=0):
                                    apertures_au=case['aps'], unit=funit)
         else:
             pk.write_cube_package(d, names, case['wav'], val, val * 0.1, apertures_au=case['aps'], unit=funit)
-    ext = make_ext(case)
+    ext = route_object(make_ext(case), case.get('ext_route', 'direct'))
     fw, ap = filter_quantities(case)
     out = {}
     infos = None
@@ -493,8 +531,18 @@ def run_plots(case, built):
                 kw['plot_mode'] = case['plot_mode']
             if srcarg is not None:
                 kw['sources'] = srcarg
+            opts = case.get('plot_opts', 'keywords')
             with common.quiet():
-                figs = plot(arg, **kw)
+                if opts == 'positional':
+                    # plot(input_fits, output_dir, select_format, plot_max, plot_mode, sed_type, ...)
+                    figs = plot(arg, None, fmt, kw.get('plot_max'), kw.get('plot_mode', 'A'), mode,
+                                **({'sources': kw['sources']} if 'sources' in kw else {}))
+                elif opts == 'memmap_off':
+                    figs = plot(arg, memmap=False, **kw)
+                elif opts == 'show_convolved':
+                    figs = plot(arg, show_convolved=True, show_sed=True, plot_name=False, plot_info=False, **kw)
+                else:
+                    figs = plot(arg, **kw)
             ref = None
             if case.get('plot_mode', 'A') == 'A' and max(ns) >= 2 and (case.get('dup') or form == list(built)[0]):
                 # the best fit on its own (rank 1 of the result as given): what the LAST block of curves must be
@@ -752,6 +800,11 @@ def _run_law(case, d, li, branches, key):
         if multi:
             branches.add('aperture_table_in_AU' if (case.get('ap_table_unit') or 'AU') == 'AU' else
                          'aperture_table_other_unit_' + case.get('pkg', 'cube'))
+        if multi and any(t * 10. ** float(a_['sc'][0]) * 1000. == aps[0] for _, recs_ in built.values() for a_ in recs_
+                         for t in theta_eff(case)):
+            branches.add('aperture_equal_smallest')
+        branches.add('ext_route_' + case.get('ext_route', 'direct'))
+        branches.add('plot_opts_' + case.get('plot_opts', 'keywords'))
         branches.add('flux_unit_mJy' if (case.get('flux_unit') or 'mJy') == 'mJy' else 'flux_unit_other')
         _, let_through = plotted_sources(case)
         t = common.driver().ask('getav %s %d %s %s' % (
